@@ -339,9 +339,7 @@ class ModelObserver(Observer):
                 self.mm("blur", "%s: stored time %r is not within one interval (%r) below the true time %r" % (path, stored, self.blur, true_t))
             if true_t % self.blur != 0:
                 self.note("blur_nontrivial_" + path)
-        else:
-            if abs(stored - true_t) > 1e-6:
-                self.mm("blur", "%s: stored time %r != true time %r (no blur configured)" % (path, stored, true_t))
+        # (without a blur interval the statement demands nothing of the stored time)
 
     def h_list(self, cs, fs):
         ans = [f for f in fs if f.get("type") == "nameplates"]
